@@ -74,8 +74,8 @@ Qed.
 
 (* non-vacuity: a list with an absent name, an empty name and a duplicate *)
 Example plain_contract_example :
-  let ls := [PLink None None (Ext 1); PLink (Some []) None (Ext 2);
-             PLink (Some [97]%N) None (Ext 3); PLink (Some [97]%N) None (Ext 4)] in
-  lookup_by_string ls [] = Ok (Ext 1) /\ lookup_by_string ls [97]%N = Ok (Ext 3)
+  let ls := [PLink None None (Ext 1 36); PLink (Some []) None (Ext 2 36);
+             PLink (Some [97]%N) None (Ext 3 36); PLink (Some [97]%N) None (Ext 4 36)] in
+  lookup_by_string ls [] = Ok (Ext 1 36) /\ lookup_by_string ls [97]%N = Ok (Ext 3 36)
   /\ lookup_by_string ls [98]%N = Err ENotFound /\ dir_length ls = 4%Z.
 Proof. cbn. repeat split. Qed.
